@@ -302,7 +302,8 @@ def run(tier, seed, replay=None):
                                  'what': 'decimal literal does not keep its value'})
         # identifier paths (exploration)
         id_fail = 0
-        parts_pool = ['a', 'A', 'ab c', 'a.b', '1a', 'select', 'x`y', 'Ünï', 'primary_key', '']
+        parts_pool = ['a', 'A', 'ab c', 'a.b', '1a', 'select', 'x`y', 'Ünï', 'primary_key', '', 'a$b', '$x', 'null$x', 'status$code',
+                      'Date$1', 'true$1', 'x$null', 'a-b', 'a b', 'from', 'From', 'in', 'IS', 'a1_', '_', 'é']
         for _ in range(300 if tier == 'quick' else 3000):
             parts = [rng.choice(parts_pool) for _ in range(rng.randint(1, 3))]
             if any(p == '' for p in parts):
@@ -321,7 +322,7 @@ def run(tier, seed, replay=None):
                               findings)
                 if fd:
                     R.known_finding(f'{fd["id"]}: {fd["what"]}')
-                else:
+                elif len(R.violations) < 8:
                     R.violation({'dialect': 'mindsdb', 'parts': parts, 'printed': txt, 'reparsed': got,
                                  'what': 'identifier path does not print to text that denotes the same parts'})
         stats['identifier_paths'] = {'fail': id_fail}
